@@ -125,6 +125,12 @@ impl C16 {
                     if out {
                         s.push_str(&format!("out json {{lib = v, from = \"{}\"}};\n", rel));
                     }
+                    // a module whose body has an out statement of its own: written under this
+                    // library's name, so instantiating it fails when the library also has an out
+                    let out_module = t.chance(1, 3);
+                    if out_module {
+                        s.push_str("let om = module {k = 1} => (r) { let r = mod.k + 1; out json {made_by = mod.k}; };\n");
+                    }
                     if t.chance(1, 5) {
                         // an import that is never evaluated but has to be linked: of a file that is
                         // not there, or of one that does not parse
@@ -135,7 +141,7 @@ impl C16 {
                             needs_broken.push(rel.clone());
                         }
                     }
-                    (s, out, "library")
+                    (s, out, if out_module { "library-with-out-module" } else { "library" })
                 }
                 1 => {
                     // entry file importing earlier files
@@ -145,9 +151,12 @@ impl C16 {
                     for j in 0..k {
                         let dep = &files[t.choice(files.len())];
                         s.push_str(&format!("let i{} = import \"{}\";\n", j, rel_import(&rel, &dep.rel)));
-                        if dep.kind == "library" || dep.kind == "entry" {
+                        if dep.kind == "library-with-out-module" && t.chance(2, 3) {
+                            fields.push(format!("o{} = i{}.om{{k = {}}}", j, j, 2 + j));
+                        }
+                        if dep.kind.starts_with("library") || dep.kind == "entry" {
                             fields.push(format!("d{} = i{}.v", j, j));
-                            if dep.kind == "library" {
+                            if dep.kind.starts_with("library") {
                                 fields.push(format!("c{} = i{}.f(1)", j, j));
                                 fields.push(format!("m{} = i{}.m{{k = 2}}", j, j));
                             }
@@ -211,6 +220,9 @@ impl C16 {
         if built_and_imported {
             o.class("file-built-and-imported");
         }
+        if files.iter().any(|f| f.src.contains(".om{")) {
+            o.class("entry-instantiates-out-module-of-imported-library");
+        }
         if files.iter().filter(|f| f.kind == "entry-instantiating-out-module").count() >= 2 {
             o.class("two-files-instantiate-a-module-with-out");
         }
@@ -258,6 +270,10 @@ impl C16 {
                 if base[i].ok && mentioned_error {
                     o.fail("C16/file-fails-in-batch", ctx(format!("{} builds alone but fails in this invocation", f.rel)));
                     return false;
+                }
+                if f.kind == "library-with-out-module" {
+                    // its artifact is also written by whoever instantiates its module: last writer wins
+                    continue;
                 }
                 if !base[i].ok {
                     // a file that fails alone leaves the same artifact (usually none) in a batch
@@ -342,7 +358,7 @@ impl Property for C16 {
         "C16"
     }
     fn rule(&self) -> String {
-        "generated projects of 2..6 files in two directories (libraries with functions and modules, with and without their own out; entry files importing earlier files and using their values, functions and modules; syntax / type / run-time failing files; identical stems in different directories; two or three entry files that instantiate the module of a shared library whose body has an out statement); baseline = each file built alone by the real binary in a fresh process on a fresh copy; then every permutation of the file list (<= 4 files, 12 random orders beyond) in one invocation, twice on fresh copies and once repeated on the same directory, plus `ucg build -r .`; per-file failure (from the `Error building file:` diagnostics), artifact bytes and exit status must equal the baseline. Non-trivial: a file is both built and imported, or a failing file precedes a passing one; distinct by project.".into()
+        "generated projects of 2..6 files in two directories (libraries with functions and modules, with and without their own out and with and without a module whose body has an out; entry files importing earlier files and using their values, functions and modules; syntax / type / run-time failing files; identical stems in different directories; two or three entry files that instantiate the module of a shared library whose body has an out statement); baseline = each file built alone by the real binary in a fresh process on a fresh copy; then every permutation of the file list (<= 4 files, 12 random orders beyond) in one invocation, twice on fresh copies and once repeated on the same directory, plus `ucg build -r .`; per-file failure (from the `Error building file:` diagnostics), artifact bytes and exit status must equal the baseline. Non-trivial: a file is both built and imported, or a failing file precedes a passing one; distinct by project.".into()
     }
     fn assumptions(&self) -> Vec<String> {
         vec!["'any number of times' is tested as two fresh runs plus one repetition on the same directory".into()]
